@@ -293,6 +293,18 @@ def rn3(prog):
             n_p += 1
             tested = [strip(c[2][-1]) for c, val, _, _ in te.facts_at(cs.bb)
                       if mir.is_call(strip(c), "is_false") and val == "0" for c in [strip(c)]]
+            # the converse: an element is left out only because its *prime* is empty.  Dropping it on a test of its sub
+            # (a false sub "contributes nothing") leaves the remaining primes short of a partition: trimming, compression
+            # and negation all read "the primes are exhaustive" off the node
+            sub = strip(v[2][1])
+            if sub in tested and sub != p:
+                out.append(inst("RN", "%s:RN3:exhaustive-primes#%d" % (f.npath, k), VIOLATION, f, cs.line,
+                                "the element (%s, %s) is pushed only when its sub is not ⊥: the primes of the node built here no "
+                                "longer cover everything, and its negation (which complements the subs and relies on exhaustive "
+                                "primes) denotes the wrong function" % (show(p)[:30], show(sub)[:30])))
+            else:
+                out.append(inst("RN", "%s:RN3:exhaustive-primes#%d" % (f.npath, k), OK, f, cs.line,
+                                "no element is left out on a test of its sub"))
             key = "%s:RN3:nonfalse-prime#%d" % (f.npath, k)
             if p in tested:
                 out.append(inst("RN", key, OK, f, cs.line, "the computed prime %s is pushed only after is_false(it) failed" % show(p)[:50]))
